@@ -201,6 +201,46 @@ theorem argsort_kinds_equal (h : c.Lawful) (k k' : SortKind) (xs : List α) :
     argsortFlat c k xs = argsortFlat c k' xs := by
   unfold argsortFlat; rw [sorts_agree h k, sorts_agree h k']
 
+/-- public form, `axis = None`: the 1-D array of those positions -/
+theorem argsort_flat (h : c.Lawful) (along : Along α Nat) (a : Arr α) (ka : KindArg) (k : SortKind)
+    (hk : resolveKind ka = .ok k) :
+    ∃ r, argsortFlat c k a.elems = .ok r ∧ Sort.argsort along c a none ka = .ok (Arr.flat r) := by
+  obtain ⟨r, hr, _⟩ := argsort_spec h k a.elems
+  exact ⟨r, hr, by simp only [Sort.argsort, hk, Res.bind_ok, argsortLane, hr, Res.map]⟩
+
+/-- on rank-1 arrays (lane lifting `along1D`) `sort`, `argsort` and `unique` never panic, whatever axis and selector
+are passed (an out-of-range axis and an unknown selector are error values) -/
+theorem ops_1d_never_panic (h : c.Lawful) (a : Arr α) (axis : Option Int) (ka : KindArg) :
+    Sort.sort along1D c a axis ka ≠ .panic ∧ Sort.argsort along1D c a axis ka ≠ .panic ∧
+    Sort.unique along1D c a axis ≠ .panic := by
+  have hs : ∀ k, sortLane c k a = .ok (Arr.flat (a.elems.mergeSort c.le)) := fun k => by
+    simp only [sortLane, sorts_agree h k, Res.map]
+  have ha : ∀ k, ∃ r, argsortLane c k a = .ok (Arr.flat r) := fun k => by
+    obtain ⟨r, hr, _⟩ := argsort_spec h k a.elems
+    exact ⟨r, by simp only [argsortLane, hr, Res.map]⟩
+  refine ⟨?_, ?_, ?_⟩
+  · unfold Sort.sort
+    cases hk : resolveKind ka with
+    | panic => exact absurd hk (resolveKind_never_panics ka)
+    | err e => simp
+    | ok k =>
+      cases axis with
+      | none => simp [hs]
+      | some ax => simp only [Res.bind_ok, along1D]; split <;> simp [hs]
+  · unfold Sort.argsort
+    cases hk : resolveKind ka with
+    | panic => exact absurd hk (resolveKind_never_panics ka)
+    | err e => simp
+    | ok k =>
+      obtain ⟨r, hr⟩ := ha k
+      cases axis with
+      | none => simp [hr]
+      | some ax => simp only [Res.bind_ok, along1D]; split <;> simp [hr]
+  · unfold Sort.unique
+    cases axis with
+    | none => simp [uniqueLane]
+    | some ax => simp only [along1D, uniqueLane]; split <;> simp
+
 /-! ## `argmax` / `argmin` -/
 
 /-- **argmax**: on a non-empty lane the answer is the first position of a largest element -/
